@@ -4,6 +4,7 @@
    writer; the output of a show inside a URL attribute is confined.
    Only statements, `exact`, and Print Assumptions live here. *)
 From Verif Require Import Bytes Facts_render RendererM Renderer_proofs RunLoopM RunLoop_proofs.
+From Verif Require Import ShowTree Facts_show ShowTypesM ShowNoPanic_proofs.
 Open Scope N_scope.
 
 (* Renderer part of the statement: for every writer (any pattern of failing
@@ -73,6 +74,45 @@ Theorem encoded_contexts_known_holds :
      | (ctx, u, s, c) => negb (ctx <=? gen_ContextSpacesCodeBlock) || op_ok (OShow c (mkShown [] None None))
      end) gen_encodeRenderContext = true.
 Proof. exact encoded_ctx_known. Qed.
+
+(* ---------------------------------------------------------------- part 1b: the show functions *)
+
+(* The type dispatch of renderer.Show (the type switches, the type tests on
+   reflect values and the kind switch of toString of every showIn function,
+   as gofacts reads them from renderer.go into decision trees): for every
+   context, inside and outside a URL, with and without a Markdown converter,
+   and every dynamic type of the shown value (every reflect.Kind, any set of
+   implemented interfaces and well known types; None is the nil interface) it
+   never panics: it writes the value, returns the cannot show error, or hands
+   the value to showInJS / showInJSON. *)
+Definition C05_show_dispatch_statement : Prop :=
+  forall (conv : bool) (ctx : N) (url : bool) (d : option ty),
+    ctx < n_contexts -> wf_dyn d ->
+    dynamic_show conv ctx url d <> OPanic /\ dynamic_show conv ctx url d <> OStuck.
+
+Theorem show_dispatch_never_panics_holds : C05_show_dispatch_statement.
+Proof. exact show_dispatch_never_panics. Qed.
+Print Assumptions show_dispatch_never_panics_holds.
+
+(* the routing of showInJS / showInJSON (leading type switch, selected clause
+   of the kind switch, conversion of map keys) and toString have no panicking
+   clause either *)
+Theorem js_routing_never_panics_holds :
+  forall (tbl : list (N * dtree)) (d : option ty),
+    In tbl [gen_showInJS_tbl; gen_showInJSON_tbl; gen_showInJS_mapkey_tbl; gen_showInJSON_mapkey_tbl; gen_toString_tbl] ->
+    wf_dyn d ->
+    forall conv, eval_tree (dyn_val conv d) (tree_assoc tbl (dyn_kind d)) <> OPanic /\
+                 eval_tree (dyn_val conv d) (tree_assoc tbl (dyn_kind d)) <> OStuck.
+Proof. exact js_routing_never_panics. Qed.
+
+(* the hypotheses are satisfiable; a nil interface and a defined type over a
+   byte slice shown in a CSS string *)
+Example show_dispatch_examples :
+  ctx_CSSString < n_contexts /\ wf_dyn None /\ wf_dyn (Some (TSlice 0 (TLeaf k_Uint8 0))) /\
+  dynamic_show false ctx_CSSString false None = OOk /\
+  dynamic_show false ctx_CSSString false (Some (TSlice 0 (TLeaf k_Uint8 0))) = OErr /\
+  dynamic_show false ctx_CSSString false (Some (TSlice (2 ^ w_ByteSlice) (TLeaf k_Uint8 0))) = OOk.
+Proof. split; [reflexivity|]. split; [reflexivity|]. split; [reflexivity|]. exact css_string_examples. Qed.
 
 (* ---------------------------------------------------------------- part 2: the run loop *)
 
